@@ -22,7 +22,8 @@ def toml(settings):
     out = ['[thermal-recorder]', 'output-dir = "{OUT}"', 'min-secs = %d' % s["min"], 'max-secs = %d' % s["max"],
            'preview-secs = %d' % s["preview"], 'min-disk-space-mb = 0',
            'constant-recorder = %s' % ("true" if s.get("const") else "false"),
-           '[windows]', 'start-recording = "12:00"', 'stop-recording = "12:00"',
+           '[windows]', 'start-recording = "%s"' % s.get("window", ("12:00", "12:00"))[0],
+           'stop-recording = "%s"' % s.get("window", ("12:00", "12:00"))[1],
            '[thermal-throttler]', 'activate = %s' % ("true" if s.get("throttle") else "false")]
     if s.get("throttle") or s.get("bucket"):
         out += ['bucket-size = "%s"' % s.get("bucket", "10m"), 'min-refill = "%s"' % s.get("refill", "10m")]
@@ -86,7 +87,7 @@ def build_conn(rng, settings, w, h, fps, model, first_id, nitems, with_clear=Tru
         forced |= {rng.randrange(1, max(2, nitems - 2)) for _ in range(2)}
     # sustain: stretches of uninterrupted motion longer than max-secs (+ pre-trigger), so that recordings are split at
     # the maximum length while the trigger run is still going on
-    sustain_left = 0
+    sustain_left, after_bad = 0, 0
     maxf, nring = settings["max"] * fps, settings["preview"] * fps + trig
     if sustain and rng.random() < sustain:
         sustain_at = rng.randrange(2, max(3, nitems // 2))
@@ -107,8 +108,12 @@ def build_conn(rng, settings, w, h, fps, model, first_id, nitems, with_clear=Tru
             z = rng.randrange(1, w * h)
             payload += boson_frame(w, h, 60000, 200, z) if boson else lepton_frame(w, h, 60000, 200, 60000 + fid * 100, z)
             ev.append(dict(ev="bad"))
+            if rng.random() < 0.6:
+                after_bad = trig + 1      # the scene changes across the bad frame: the next good frames still show motion
+                                          # (a bad frame is skipped, it is not a camera reset)
         else:
-            burst = rng.random() < 0.35 or sustain_left > 0
+            burst = rng.random() < 0.35 or sustain_left > 0 or after_bad > 0
+            after_bad = max(0, after_bad - 1)
             sustain_left = max(0, sustain_left - 1)
             toggle = burst and since > 0
             if toggle:
@@ -193,7 +198,9 @@ def c11_events(ctx, binp):
         w, h = rng.choice([(4, 3), (5, 4), (8, 6)])
         model = rng.choice(["lepton3", "lepton3.5", "boson"])
         conns, mev, fid = [], [], 1
-        for c in range(rng.choice([1, 1, 2])):
+        if k % 6 == 0:
+            settings["const"] = True      # the continuous recorder across a reconnect (its directory already exists)
+        for c in range(2 if k % 6 == 0 else rng.choice([1, 1, 2])):
             conn, ev, fid = build_conn(rng, settings, w, h, fps, model, fid, rng.randint(20, 90), with_bad=False, sustain=0.6)
             conns.append(conn)
             mev += ev
@@ -371,7 +378,8 @@ def thr_probe_runs(ctx, binp):
         minlen = (mn + preview) * fps
         model = rng.choice(["lepton3", "boson"])
         sseed = rng.randrange(1 << 30)
-        for bucket_s in [mn + preview + d for d in ((1, 2, 3, 4) if ctx.tier == "quick" else (0, 1, 2, 3, 4, 5))]:
+        # d = -1: a bucket smaller than one minimum-length recording (nothing may ever be recorded)
+        for bucket_s in [mn + preview + d for d in ((-1, 1, 2, 3) if ctx.tier == "quick" else (-1, 0, 1, 2, 3, 4, 5)) if mn + preview + d >= 1]:
             settings = dict(min=mn, max=mx, preview=preview, const=False, throttle=True, bucket="%ds" % bucket_s, refill="24h",
                             motion=dict(FIXED_MOTION, **{"trigger-frames": trig}), device="dev", deviceid=7)
             w, h = 4, 3
@@ -437,7 +445,8 @@ def c17_runs(ctx, binp):
         ev = [dict(ev="conn", N=settings["preview"] * fps + trig, TrigF=trig, MinF=settings["min"] * fps, MaxF=settings["max"] * fps,
                    ConstOn=settings["const"], firstid=1, newrun=True)]
         payload, pace = bytearray(), []
-        n_idle, n_motion, n_tail = rng.randint(4, 8), rng.randint(34, 44), rng.randint(30, 36)
+        # the tail must hold the idle request (min-secs*fps + 6 frames after the motion ends) and its 21 frames
+        n_idle, n_motion, n_tail = rng.randint(4, 8), rng.randint(34, 44), settings["min"] * fps + 6 + 21 + rng.randint(3, 9)
         hot, fid = False, 1
         for i in range(n_idle + n_motion + n_tail):
             motion = n_idle <= i < n_idle + n_motion
@@ -462,6 +471,35 @@ def c17_runs(ctx, binp):
         last = [e for e in evs if e["ev"] == "e2e-conn-done"][-1]
         runs.append(dict(kind="predict", settings=settings, fps=fps, model="lepton3", model_events=ev, result=last, scen=scen,
                          ntest=len(req_at), expected_motion={}))
+    return runs
+
+
+def c04_window_runs(ctx, binp):
+    """C04's window clause through config.toml and runMain: a recording window an hour around the current time
+    (recordings as without a window) and one that opens in an hour (motion, but nothing may be recorded); the
+    continuous recorder is not gated by the window."""
+    import time
+    rng = ctx.rng
+    runs = []
+    for k in range(2 if ctx.tier == "quick" else 8):
+        settings, fps = gen_settings(rng)
+        now = time.time()
+        hm = lambda t: time.strftime("%H:%M", time.localtime(t))
+        is_open = (k % 2 == 0)
+        settings["window"] = (hm(now - 3600), hm(now + 3600)) if is_open else (hm(now + 3600), hm(now + 7200))
+        w, h = 4, 3
+        model = rng.choice(["lepton3", "boson"])
+        conn, ev, fid = build_conn(rng, settings, w, h, fps, model, 1, rng.randint(40, 80), with_clear=False, with_bad=False, sustain=0.5)
+        ev[0]["WinOpen"] = is_open
+        scen = dict(config=toml(settings), prefiles=[], conns=[conn])
+        try:
+            evs = run_e2e(ctx, binp, scen, "c04w_%d" % k)
+        except DaemonCrash as dc:
+            runs.append(dict(kind="crash", settings=settings, fps=fps, model=model, msg=dc.msg, result=dict(files=[], constant=[])))
+            continue
+        last = [e for e in evs if e["ev"] == "e2e-conn-done"][-1]
+        runs.append(dict(kind="predict", settings=settings, fps=fps, model=model, model_events=ev, result=last, scen=scen,
+                         expected_motion={}))
     return runs
 
 
